@@ -4,7 +4,9 @@
    -I/--ids-file (after the fix: a single click.File("r")), str.splitlines,
    the usage error for both sample forms, the exit status click derives from
    the outcome, and the by-membership selection the entry points perform with
-   the resolved collections.  Strings are lists of code points. No proofs. *)
+   the resolved collections; and, for "a failing run exits non-zero", the tail of
+   index_haps (haptools/index.py) at the level of the files it creates, with the
+   order of lines tabix accepts.  Strings are lists of code points. No proofs. *)
 From HV Require Import Prelude.
 
 Definition str := list Z.
@@ -111,3 +113,78 @@ Definition front_end {A} (legacy : bool) (sopts : list str) (sfile : option str)
   (run : option (list str) -> option (list str) -> res A) : res A :=
   bind (resolve_samples sopts sfile) (fun s =>
   bind (resolve_ids legacy iopts ifile) (fun i => run s i)).
+
+(* ---- "a failing run exits non-zero": haptools index ----------------------- *)
+
+(* The tail of index_haps (haptools/index.py) at the level of the files it creates.
+   index copies its input to a temporary file, lets pysam.tabix_index compress and index
+   that file, and moves <tmp>.gz and <tmp>.gz.tbi to the documented output locations
+   <out>.gz and <out>.gz.tbi.  When tabix refuses the file (lines not in an order it
+   accepts) the `except OSError` handler only logs "Indexing failed. Is your file
+   properly sorted?" and carries on; the run nevertheless fails, because the copy of the
+   .tbi that was never written raises FileNotFoundError. *)
+Definition E_OS : Z := 15.
+
+Inductive ipath := TmpPlain | TmpGz | TmpTbi | OutGz | OutTbi.
+
+Definition ipath_eqb (a b : ipath) : bool :=
+  match a, b with
+  | TmpPlain, TmpPlain | TmpGz, TmpGz | TmpTbi, TmpTbi | OutGz, OutGz | OutTbi, OutTbi => true
+  | _, _ => false
+  end.
+
+(* the files that exist *)
+Definition files := list ipath.
+Definition present (p : ipath) (f : files) : bool := existsb (ipath_eqb p) f.
+Definition without (p : ipath) (f : files) : files := filter (fun q => negb (ipath_eqb p q)) f.
+
+(* shutil.copy / Path.unlink *)
+Definition copy_file (src dst : ipath) (f : files) : res files :=
+  if present src f then Ok (dst :: without dst f) else Err E_OS.
+Definition unlink_file (p : ipath) (f : files) : res files :=
+  if present p f then Ok (without p f) else Err E_OS.
+
+(* pysam.tabix_index: bgzip replaces the plain file by <tmp>.gz, then the index is built;
+   a refused file leaves no .tbi behind (OSError "building of index for ... failed": logged) *)
+Definition tabix_step (accepted : bool) (f : files) : files :=
+  let f' := TmpGz :: without TmpPlain f in
+  if accepted then TmpTbi :: f' else f'.
+
+(* [guarded = false]: the code as it is - copy, then unlink, unconditionally.
+   [guarded = true]: a variant that moves a temporary file only `if tmp_file.exists()` *)
+Definition move_file (guarded : bool) (src dst : ipath) (f : files) : res files :=
+  if guarded && negb (present src f) then Ok f
+  else bind (copy_file src dst f) (unlink_file src).
+
+Definition index_tail (guarded accepted : bool) : res files :=
+  let f := tabix_step accepted [TmpPlain] in
+  bind (move_file guarded TmpGz OutGz f) (move_file guarded TmpTbi OutTbi).
+
+(* the output files `haptools index` documents *)
+Definition index_documented : list ipath := [OutGz; OutTbi].
+Definition missing_of (f : files) : list ipath := filter (fun p => negb (present p f)) index_documented.
+
+(* what tabix sees of a data line with seq_col=1, start_col=2, end_col=3: (sequence name,
+   start, end).  Accepted: every sequence name occupies one contiguous block of lines,
+   starts never decrease inside a block, no record ends before it begins *)
+Definition tline := (Z * Z * Z)%type.
+Definition memZ (x : Z) (l : list Z) : bool := existsb (Z.eqb x) l.
+
+Fixpoint tabix_walk (seen : list Z) (cur : option (Z * Z)) (ls : list tline) : bool :=
+  match ls with
+  | [] => true
+  | (q, s, e) :: r =>
+    (s - 1 <=? e) &&
+    match cur with
+    | None => tabix_walk seen (Some (q, s)) r
+    | Some (c, last) =>
+      if q =? c then (last <=? s) && tabix_walk seen (Some (q, s)) r
+      else negb (memZ q (c :: seen)) && tabix_walk (c :: seen) (Some (q, s)) r
+    end
+  end.
+
+Definition tabix_accepts (ls : list tline) : bool := tabix_walk [] None ls.
+
+(* haptools index --no-sort on a file whose data lines are [ls] *)
+Definition index_nosort (guarded : bool) (ls : list tline) : res files :=
+  index_tail guarded (tabix_accepts ls).
